@@ -45,9 +45,11 @@ pub fn langid(v: &[u8]) -> String {
         let r2 = LanguageIdentifier::from_str(s);
         if r2 != r { return format!("INCONSISTENT from_str {:?} vs from_bytes {:?}", r2, r); }
     }
+    if unic_langid::LanguageIdentifier::from_bytes(v).ok() != r.as_ref().ok().cloned() { return "INCONSISTENT unic_langid::LanguageIdentifier (facade) vs unic_langid_impl".into(); }
     match r { Ok(li) => format!("OK {}", fmt_li(&li)), Err(e) => lierr(&e) }
 }
 pub fn li_canonicalize(v: &[u8]) -> String {
+    if unic_langid::canonicalize(v).ok() != unic_langid_impl::canonicalize(v).ok() { return "INCONSISTENT unic_langid::canonicalize vs unic_langid_impl::canonicalize".into(); }
     match unic_langid_impl::canonicalize(v) {
         Ok(s) => {
             // idempotent (C05)
@@ -153,7 +155,17 @@ pub fn li_routes(v: &[u8]) -> String {
     r6.language.clear(); r6.language = l;
     let mut r7 = r1.clone();
     r7.set_variants(&[]); r7.set_variants(&vs);
-    let routes = [&r1, &r2, &r3, &r4, &r5, &r6, &r7];
+    let mut r8: LanguageIdentifier = "ca-Latn-ES-valencia-fonipa".parse().unwrap();
+    r8.clone_from(&r1);
+    let mut r9 = LanguageIdentifier::default();
+    r9.clone_from(&r1);
+    // an identifier rebuilt from raw parts with the variants always boxed: whatever == says about it,
+    // equal values hash equally and compare Equal
+    let raw = LanguageIdentifier::from_raw_parts_unchecked(l, sc, rg, Some(vs.clone().into_boxed_slice()));
+    if raw == r1 && (hash_of(&raw) != hash_of(&r1) || raw.cmp(&r1) != std::cmp::Ordering::Equal || r1.cmp(&raw) != std::cmp::Ordering::Equal) {
+        return "DIFF hash/cmp of == values (raw-parts route)".into();
+    }
+    let routes = [&r1, &r2, &r3, &r4, &r5, &r6, &r7, &r8, &r9];
     for (i, a) in routes.iter().enumerate() {
         for (j, b) in routes.iter().enumerate() {
             if a != b { return format!("DIFF == routes {} {}", i + 1, j + 1); }
